@@ -27,6 +27,9 @@ class OptState:
         ctx.assume(distinct_keys())
         for k in KNOWN_KEYS:
             ctx.assume(self.K[okey(k)])
+        # boolean option values: reading back what was stored
+        from engine.optmodel import ovbool, oval_of_bool
+        ctx.assume(z3.And(ovbool(oval_of_bool(z3.BoolVal(True))), z3.Not(ovbool(oval_of_bool(z3.BoolVal(False))))))
         self.cur0 = self.cur.snapshot()
         self.dfl0 = self.dfl.snapshot()
 
@@ -242,7 +245,44 @@ class GlobalOptions(Contract):
         yield Case("", make_env, check, on_yield=on_yield)
 
     def apply(self, ex, args, kw, node):
-        raise V.U("global_options used as a callee", node)
+        """global_options(**kw) used in a `with` statement of library code (engine.sx.st_With): the verified contract above -
+        enter: KeyError with the state untouched for an unknown name, else exactly the given options changed;
+        exit (any way out): the complete option set of the entry restored."""
+        if args:
+            ex.oblige(f"pre({ex.site('global_options')}).keyword_only", z3.BoolVal(False), "precondition", node)
+        return OptionsBlock(kw)
+
+
+class OptionsBlock:
+    def __init__(self, kw):
+        self.kw = kw
+        self.saved = None
+
+    def sx_enter(self, ex, node):
+        st = get_state(ex)
+        has, at = kwargs_as_map(ex, self.kw, node)
+        x = z3.Const(ex.ctx.fresh("x"), OKey)
+        dom0, val0 = st.cur.dom, st.cur.val
+        if not ex.decide(z3.ForAll([x], z3.Implies(has(x), dom0[x])), "global_options.known"):
+            raise_("KeyError", node)              # state unchanged
+        self.saved = (dom0, val0)
+        if "**" not in self.kw:
+            # named options only: a chain of stores (plain array theory, no lambda)
+            from engine.optmodel import _val
+            v = val0
+            for k, x_ in self.kw.items():
+                v = z3.Store(v, okey(k), _val(x_))
+            st.cur.val = v
+        else:
+            y = z3.Const(ex.ctx.fresh("y"), OKey)
+            st.cur.val = z3.Lambda([y], z3.If(has(y), at(y), val0[y]))
+        ex.__dict__.setdefault("option_blocks", []).append(self)
+        return OptDict(st.cur.dom, st.cur.val, "fresh")
+
+    def sx_exit(self, ex, node):
+        st = get_state(ex)
+        st.cur.dom, st.cur.val = self.saved
+        self.exited = True
 
 
 def static_frame_obligations(repo):
